@@ -120,7 +120,7 @@ func adapterProblems(fns []*ssa.Function) map[*ssa.Function]string {
 					return
 				}
 			}
-			out[f] = fmt.Sprintf("the reader's state (%s) is updated independently of the number of bytes copied to the caller: when the caller's buffer is shorter than what is buffered, undelivered bytes are dropped", core.FieldOf(fa).Name())
+			out[f] = fmt.Sprintf("the reader's state (%s) is updated independently of the number of bytes copied to the caller: when the caller's buffer is shorter than what is buffered, undelivered bytes are dropped", core.FieldName(core.FieldOf(fa)))
 		})
 	}
 	return out
